@@ -372,13 +372,12 @@ impl SimpleSelector {
                         if complex.components.len() != 1 {
                             return false;
                         };
-                        complex
-                            .components
-                            .first()
-                            .unwrap()
-                            .as_compound()
-                            .components
-                            .contains(self)
+                        match complex.components.first() {
+                            Some(ComplexSelectorComponent::Compound(compound)) => {
+                                compound.components.contains(self)
+                            }
+                            Some(ComplexSelectorComponent::Combinator(..)) | None => false,
+                        }
                     });
                 }
                 false
